@@ -336,6 +336,37 @@ def write_evidence(prop, ev):
     json.dump(ev, open(os.path.join(VERIF, "evidence", prop + ".json"), "w"), indent=1)
 
 
+REPLAY_BIN = os.path.join(VERIF, "replay", "target", "release", "vreplay")
+
+
+def ensure_replay():
+    """Build the replay crate (links the real /repo crates with --features verif-hooks). ~1 min cold."""
+    env = dict(os.environ, CARGO_NET_OFFLINE="true")
+    shutil.copyfile(os.path.join(REPO, "Cargo.lock"), os.path.join(VERIF, "replay", "Cargo.lock"))
+    r = sh(["cargo", "build", "--release", "--offline"], cwd=os.path.join(VERIF, "replay"), env=env)
+    return r.returncode == 0, r.stderr[-1500:]
+
+
+def run_replay(rp):
+    """Run a stored input against the REAL code. Returns {status: reproduced|not-reproduced|unavailable, ...}."""
+    if REPO != "/repo":
+        return {"status": "unavailable (replay crate links /repo itself; VERIF_REPO points elsewhere)"}
+    ok, err = ensure_replay()
+    if not ok:
+        return {"status": "unavailable (replay crate does not build)", "stderr": err}
+    spec = os.path.join(VERIF, rp["spec_file"])
+    r = sh([REPLAY_BIN, rp["kind"], spec])
+    try:
+        out = json.loads(r.stdout.strip().splitlines()[-1])
+    except Exception:
+        return {"status": "unavailable (no output)", "stderr": r.stderr[-500:]}
+    good = out.get("accepted") == rp.get("expect_accepted", True)
+    for k, v in rp.get("expect_public_inputs", {}).items():
+        pis = out.get("public_inputs") or []
+        good = good and int(k) < len(pis) and pis[int(k)] == v
+    return {"status": "reproduced" if good else "not-reproduced", "output": out}
+
+
 def load_known():
     p = os.path.join(VERIF, "known_findings.json")
     if os.path.exists(p):
@@ -372,7 +403,10 @@ def run_property(prop, tier, seed, replay, t0):
         for u in units:
             if analyses[u]["compile_error"]:
                 continue
-            mine = [f for f in analyses[u]["failures"] if prop in f["props"]] + [o for o in analyses[u]["other"] if o.get("props") is None or prop in o["props"]]
+            known_now = set(k["obligation"] for k in load_known().get("findings", []) if k["property"] == prop)
+            mine = [f for f in analyses[u]["failures"] if prop in f["props"] and f["obligation"] not in known_now] + \
+                   [o for o in analyses[u]["other"] if (o.get("props") is None or prop in o["props"])
+                    and "%s.lemma.%s[%s]" % (u, o["kind"], o["clause"]) not in known_now]
             if not mine:
                 continue
             retried = 0
@@ -472,9 +506,17 @@ def run_property(prop, tier, seed, replay, t0):
     known = load_known()
     known_obl = {k["obligation"]: k for k in known.get("findings", []) if k["property"] == prop}
     new_fail = [f for f in failures if f["obligation"] not in known_obl]
+    replayed = []
     for f in failures:
         if f["obligation"] in known_obl:
-            print("KNOWN-FINDING: property=%s %s" % (prop, known_obl[f["obligation"]]["what"]))
+            k = known_obl[f["obligation"]]
+            note = ""
+            rp = k.get("replay")
+            if rp:
+                rr = run_replay(rp)
+                replayed.append({"id": k.get("id"), "result": rr})
+                note = " [replayed on the real code: %s]" % rr.get("status")
+            print("KNOWN-FINDING: property=%s %s%s" % (prop, k["what"], note))
 
     samples = []
     for u, it in my_items[:6]:
@@ -497,6 +539,7 @@ def run_property(prop, tier, seed, replay, t0):
         "cached_units": [u for u in units if results[u].get("cached")],
         "bounded_stand_ins": bounded,
         "seed_retries": {u: analyses[u].get("seed_retries", 0) for u in units},
+        "known_findings_replayed": replayed,
     }
     ev["coverage"] = cov
     ev["assumptions"] = cfg.get("assumptions", []) + ["every item listed in coverage.trusted_base (mechanical scan of the generated unit)",
